@@ -170,7 +170,7 @@ func vC04CaseHist(out *vC04Out, r *rand.Rand) {
 	resp := vC04GenResponse(r, name, kind, signed)
 	cd := r.Intn(6) == 0
 	resp.CheckingDisabled = cd
-	how := []int{0, 0, 1, 2, 2, 2, 3, 4}[r.Intn(8)]
+	how := []int{0, 0, 1, 2, 2, 2, 3, 4, 5, 5}[r.Intn(10)]
 	// lease: none / around the ttl / short (below the floor) / already over
 	hasCut := r.Intn(2) == 0 && how != 3
 	cutOff := time.Duration(0)
@@ -189,7 +189,7 @@ func vC04CaseHist(out *vC04Out, r *rand.Rand) {
 	var scope netip.Prefix
 	var ecsOpt *dns.EDNS0_SUBNET
 	client := "198.51.100.77:40000"
-	scoped := how == 1
+	scoped := how == 1 || how == 5
 	if scoped {
 		scope = netip.MustParsePrefix("198.51.100.0/24")
 		ecsOpt = &dns.EDNS0_SUBNET{Code: dns.EDNS0SUBNET, Family: 1, SourceNetmask: 24, Address: []byte{198, 51, 100, 0}}
@@ -232,6 +232,28 @@ func vC04CaseHist(out *vC04Out, r *rand.Rand) {
 		w1 = time.Now().UnixNano()
 		t0, t1 = rep.t0, rep.t1
 		delete(env.stub.script, strings.ToLower(name))
+	case 5:
+		// client path with ECS: the downstream answers with a SCOPE, WriteMsg keys the
+		// entry under the clamped scope (SetFromResponseScoped) and the ECS cap applies
+		setCut()
+		env.stub.script[strings.ToLower(name)] = &vC04Script{resp: resp, hasCut: hasCut, cut: cutV, cutKey: 7}
+		env.stub.scopeOf = func(req *dns.Msg) *dns.OPT {
+			o := new(dns.OPT)
+			o.Hdr.Name, o.Hdr.Rrtype = ".", dns.TypeOPT
+			o.SetUDPSize(1232)
+			o.Option = []dns.EDNS0{&dns.EDNS0_SUBNET{Code: dns.EDNS0SUBNET, Family: 1, SourceNetmask: 24, SourceScope: uint8([]int{24, 24, 28, 20}[r.Intn(4)]), Address: []byte{198, 51, 100, 0}}}
+			return o
+		}
+		w0 = time.Now().UnixNano()
+		rep := env.query(0, name, r.Intn(2) == 0, cd, ecsOpt, client)
+		w1 = time.Now().UnixNano()
+		t0, t1 = rep.t0, rep.t1
+		env.stub.scopeOf = nil
+		delete(env.stub.script, strings.ToLower(name))
+		if e := env.peek(key); e == nil {
+			// a wider SCOPE (/20) keys the entry under that prefix
+			key = vC04ScopedKey(name, cd, netip.MustParsePrefix("198.51.96.0/20"))
+		}
 	case 3:
 		w0, t0 = time.Now().UnixNano(), k.now()
 		env.c.Set(key, resp)
